@@ -455,6 +455,8 @@ class Engine:
             return self.module_consts[n]
         if n in self.contracts:
             return VConc(n)
+        if n in self.classes():
+            return VConc("class:" + n)
         if ("builtin:" + n) in self.models or n in self.models:
             return VConc("builtin:" + n if ("builtin:" + n) in self.models else n)
         if n in ("np", "numpy", "math", "os", "sys", "itertools", "sympy", "utils", "simplifier", "generator",
@@ -643,6 +645,23 @@ class Engine:
             o = st.heap[cont.addr]
             if isinstance(o, HDict):
                 return o.has(self.key_term(item))
+            if isinstance(o, HSeq) and isinstance(item, VNone):
+                from .models import any_of
+                g = o.get
+
+                def isnone_at(q, g=g):
+                    e = g(q)
+                    if isinstance(e, VNone):
+                        return z3.BoolVal(True)
+                    if isinstance(e, VMaybeNone):
+                        return e.isnone
+                    return z3.BoolVal(False)
+                if o.note and o.note[0] == "filter" and len(o.note) >= 4:
+                    # membership in a filtered list, stated over the positions of the unfiltered one (no IDX/RNK needed)
+                    _, ma_, nb_, base_ = o.note
+                    bg = base_.get
+                    return any_of(self, nb_, lambda q: z3.And(z3.Select(ma_, q), isnone_at(q, bg)), "innone")
+                return any_of(self, o.len, isnone_at, "innone")
             if isinstance(o, HSeq) and isinstance(item, (VFloat,)):
                 from .models import any_of
                 g = o.get
@@ -985,7 +1004,43 @@ class Engine:
             kwargs[k.arg] = self.ev(k.value, st)
         return self.call(fn, args, kwargs, st, node)
 
+    def classes(self):
+        if not hasattr(self, "_classes"):
+            self._classes = {n.name: n for n in self.tree.body if isinstance(n, ast.ClassDef)}
+        return self._classes
+
+    def construct(self, cname, args, kwargs, st, node):
+        """Record constructor: __init__ must consist of `self.f = <expr over its parameters / constants>` only."""
+        cls = self.classes()[cname]
+        init = [m for m in cls.body if isinstance(m, ast.FunctionDef) and m.name == "__init__"]
+        if not init:
+            raise Unsupported("class %s has no __init__" % cname)
+        init = init[0]
+        pn = [a.arg for a in init.args.args][1:]
+        s2 = st.fork()
+        s2.silent += 1
+        s2.env = {}
+        for i_, nm in enumerate(pn):
+            if i_ < len(args):
+                s2.env[nm] = args[i_]
+            elif nm in kwargs:
+                s2.env[nm] = kwargs[nm]
+            else:
+                raise Unsupported("constructor %s: missing argument %s" % (cname, nm))
+        fields = {}
+        for stmt in init.body:
+            if isinstance(stmt, ast.Expr) and isinstance(stmt.value, ast.Constant):
+                continue
+            if isinstance(stmt, ast.Assign) and len(stmt.targets) == 1 and isinstance(stmt.targets[0], ast.Attribute) and \
+                    isinstance(stmt.targets[0].value, ast.Name) and stmt.targets[0].value.id == "self":
+                fields[stmt.targets[0].attr] = self.ev(stmt.value, s2)
+            else:
+                raise Unsupported("constructor %s is not a plain record constructor (line %d)" % (cname, stmt.lineno))
+        return VRecProto(cname, fields)
+
     def call(self, fn, args, kwargs, st, node):
+        if isinstance(fn, VConc) and fn.name.startswith("class:"):
+            return self.construct(fn.name[6:], args, kwargs, st, node)
         if isinstance(fn, VFn):
             if self.opaque_call is None:
                 raise Unsupported("call of an opaque object (line %d)" % node.lineno)
@@ -1111,6 +1166,10 @@ class Engine:
                 self.run_hook(self.cur.hooks[tgt.id], st, node)
             if isinstance(tgt, ast.Subscript) and isinstance(tgt.value, ast.Name) and self.cur is not None and (tgt.value.id + "[]") in self.cur.hooks:
                 self.run_hook(self.cur.hooks[tgt.value.id + "[]"], st, node)
+            if isinstance(tgt, ast.Attribute) and isinstance(tgt.value, ast.Subscript) and isinstance(tgt.value.value, ast.Name) and self.cur is not None:
+                key_ = "%s[].%s" % (tgt.value.value.id, tgt.attr)
+                if key_ in self.cur.hooks:
+                    self.run_hook(self.cur.hooks[key_], st, node)
         return K["next"](st)
 
     def ex_AugAssign(self, node, st, K):
@@ -1289,7 +1348,7 @@ class Engine:
         names = set()
         for e in ends:
             names |= set(e.env)
-        for n in names:
+        for n in sorted(names):
             vals = [e.env.get(n) for e in ends]
             ub = []
             for e, c in zip(ends, conds):
@@ -1315,7 +1374,7 @@ class Engine:
         addrs = set()
         for e in ends:
             addrs |= set(e.heap)
-        for a in addrs:
+        for a in sorted(addrs):
             objs = [e.heap.get(a) for e in ends]
             present = [(o, c) for o, c in zip(objs, conds) if o is not None]
             r = present[-1][0]
@@ -1537,6 +1596,11 @@ class Engine:
         s1 = st.fork()
         self.havoc(s1, (names | tnames) - {idx, "__i"}, heapmut, spec, "L%d" % ordn)
         i = z3.Int(fresh_name("i!L%d" % ordn))
+        # names first assigned inside the body: they carry a value from the previous iteration (unbound in the first one)
+        for nm_ in sorted(names - set(st.env)):
+            if nm_ in spec.havoc_types:
+                s1.env[nm_] = self.fresh(spec.havoc_types[nm_], "%s!L%d" % (nm_, ordn), s1)
+                s1.unbound[nm_] = (i == 0)
         s1.env[idx] = VInt(i)
         s1.env["__i"] = VInt(i)
         s1.assume(z3.And(0 <= i, i < n))
@@ -1559,11 +1623,22 @@ class Engine:
         # --- after the loop (ran to completion)
         s2 = st.fork()
         self.havoc(s2, (names | tnames) - {idx, "__i"}, heapmut, spec, "X%d" % ordn)
+        for nm_ in sorted(names - set(st.env)):
+            if nm_ in spec.havoc_types:
+                s2.env[nm_] = self.fresh(spec.havoc_types[nm_], "%s!X%d" % (nm_, ordn), s2)
+                s2.unbound[nm_] = (n == 0)
         s2.env[idx] = VInt(n)
         s2.env["__i"] = VInt(n)
         for nm, c in spec.invariant(Spec(self, s2), s2):
             s2.assume(c)
-        # the loop target keeps its last value (or stays unbound when n == 0): mark conditionally unbound
+        # the loop target keeps the value of the last iteration (or stays unbound / unchanged when n == 0)
+        try:
+            last = elem(n - 1)
+            if isinstance(node.target, ast.Name):
+                prev = st.env.get(node.target.id)
+                s2.env[node.target.id] = last if prev is None else ite(n > 0, last, prev)
+        except Unsupported:
+            pass
         for t in tnames:
             if t not in st.env:
                 s2.unbound[t] = (n == 0)
